@@ -20,11 +20,19 @@ def run_group(args):
     else:
         cwd = REPO
         base = 'cargo kani --manifest-path %s/feos-core/Cargo.toml --target-dir %s -Z stubbing' % (REPO, tdir)
-    cmd = 'ulimit -v %d; exec timeout %d %s %s' % (mem_gb * 1024 * 1024, timeout, base, ' '.join('--exact --harness ' + ('h::' if where == 'ext' else 'state::verif_kani::') + h for h in harnesses))
+    pre = 'h::' if where == 'ext' else 'state::verif_kani::'
     t0 = time.time()
+    rc = 0
+    # one cargo-kani invocation per harness (the build is shared through the target dir): a harness that hits the time or
+    # memory limit does not take the rest of its group with it
     with open(log, 'w') as f:
-        p = subprocess.run(['bash', '-c', cmd], cwd=cwd, stdout=f, stderr=subprocess.STDOUT, env=ENV)
-    return gid, where, harnesses, p.returncode, log, time.time() - t0
+        for h in harnesses:
+            cmd = 'ulimit -v %d; exec timeout %d %s --exact --harness %s%s' % (mem_gb * 1024 * 1024, timeout, base, pre, h)
+            f.write('\n##### harness %s\n' % h); f.flush()
+            p = subprocess.run(['bash', '-c', cmd], cwd=cwd, stdout=f, stderr=subprocess.STDOUT, env=ENV)
+            f.write('\n##### rc %s = %d\n' % (h, p.returncode)); f.flush()
+            rc = rc or p.returncode
+    return gid, where, harnesses, rc, log, time.time() - t0
 
 
 def parse_log(log):
@@ -91,9 +99,12 @@ def run_harnesses(spec, timeout=2400, mem_gb=40, procs=16):
     return out
 
 
-def decide(outcome, prop, results, expect_cover=True):
-    """harness verdicts -> outcome; returns coverage pieces"""
+def decide(outcome, prop, results, expect_cover=True, soft=()):
+    """harness verdicts -> outcome; returns coverage pieces.  `soft`: harnesses of the thorough tier whose resource
+    exhaustion (time / memory limit of this machine) is recorded as 'undecided' (nothing claimed) instead of making the
+    run inconclusive; a failed harness assertion is a violation regardless"""
     decided = 0
+    undecided = {}
     nontrivial = 0
     checks = 0
     per = {}
@@ -130,7 +141,11 @@ def decide(outcome, prop, results, expect_cover=True):
                 outcome.inconclusive.append('harness %s: FAILED without a harness assertion (status %s)' % (h, r['status']))
                 per[h] = 'inconclusive'
         else:
+            if h in soft:
+                undecided[h] = '%s (not decided within the time / memory limit of this run; nothing is claimed for it)' % r['status']
+                per[h] = 'undecided: ' + r['status']
+                continue
             outcome.inconclusive.append('harness %s: %s %s' % (h, r['status'], r.get('note', '')[:300]))
             per[h] = r['status']
-    return {'states': max(1, sum(r.get('steps', 0) for r in results.values())), 'transitions': max(1, sum(r.get('vccs', 0) for r in results.values())),
+    return {'undecided_soft': undecided, 'states': max(1, sum(r.get('steps', 0) for r in results.values())), 'transitions': max(1, sum(r.get('vccs', 0) for r in results.values())),
             'harnesses': per, 'cbmc_checks_decided': checks, 'harnesses_decided': decided, 'harnesses_nonvacuous': nontrivial, 'kani_verification_s': round(solver_s, 1)}
